@@ -17,6 +17,7 @@ import (
 	"strconv"
 	"strings"
 	"sync"
+	"syscall"
 	"time"
 
 	"raven/internal/conf"
@@ -96,11 +97,17 @@ func c04Get() *c04Backend {
 	})
 	a.srv = &http.Server{Handler: mux}
 	go func() { _ = a.srv.Serve(ln) }()
-	// a port nobody listens on: connection refused
-	l2, err := net.Listen("tcp", "127.0.0.1:0")
-	if err == nil {
-		c04dead = "http://" + l2.Addr().String() + "/auth"
-		_ = l2.Close()
+	// a port nobody listens on: a socket that is bound (so no other process
+	// can be given the port) but never listens -> connection refused
+	if fd, err := syscall.Socket(syscall.AF_INET, syscall.SOCK_STREAM, 0); err == nil {
+		sa := &syscall.SockaddrInet4{Port: 0, Addr: [4]byte{127, 0, 0, 1}}
+		if err := syscall.Bind(fd, sa); err == nil {
+			if got, err := syscall.Getsockname(fd); err == nil {
+				if in4, ok := got.(*syscall.SockaddrInet4); ok {
+					c04dead = fmt.Sprintf("http://127.0.0.1:%d/auth", in4.Port)
+				}
+			}
+		}
 	}
 	c04b = a
 	return a
